@@ -275,6 +275,7 @@ XML_ARGS = ('<tns:i>5</tns:i><tns:u>x</tns:u><tns:d>2020-02-29</tns:d><tns:t>202
             '<tns:a><tns:integer>1</tns:integer><tns:integer>2</tns:integer></tns:a><tns:c><tns:x>1</tns:x><tns:s>y</tns:s>'
             '</tns:c><tns:n>1.5</tns:n><tns:f>1.5</tns:f><tns:o>true</tns:o><tns:r>PT1S</tns:r>'
             '<tns:z>12345678-1234-5678-1234-567812345678</tns:z>')
+XSI_DECL = 'xmlns:xsi="http://www.w3.org/2001/XMLSchema-instance"'
 XML_MUTATIONS = {
     'valid': lambda a: a,
     'bad_int': lambda a: a.replace('<tns:i>5<', '<tns:i>five<'),
@@ -310,13 +311,21 @@ XML_MUTATIONS = {
     'double_nan': lambda a: a.replace('<tns:f>1.5<', '<tns:f>nan<'),
     'double_inf': lambda a: a.replace('<tns:f>1.5<', '<tns:f>-inf<'),
     'int_nan': lambda a: a.replace('<tns:i>5<', '<tns:i>NaN<'),
+    # xsi:type values that are not 'prefix:name' of a known class (simple and complex member)
+    'xsi_type_no_colon': lambda a: a.replace('<tns:i>5<', '<tns:i %s xsi:type="integer">5<' % XSI_DECL),
+    'xsi_type_empty': lambda a: a.replace('<tns:i>5<', '<tns:i %s xsi:type="">5<' % XSI_DECL),
+    'xsi_type_colon_only': lambda a: a.replace('<tns:i>5<', '<tns:i %s xsi:type=":">5<' % XSI_DECL),
+    'xsi_type_two_colons': lambda a: a.replace('<tns:c>', '<tns:c %s xsi:type="tns:Inner:x">' % XSI_DECL),
+    'xsi_type_unknown_prefix': lambda a: a.replace('<tns:c>', '<tns:c %s xsi:type="zz:Inner">' % XSI_DECL),
+    'xsi_type_no_colon_complex': lambda a: a.replace('<tns:c>', '<tns:c %s xsi:type="Inner">' % XSI_DECL),
+    'xsi_type_blank': lambda a: a.replace('<tns:c>', '<tns:c %s xsi:type=" tns:Inner ">' % XSI_DECL),
 }
 
 
 def _mk_xml(family, validator):
     @obligation('C10.xml_mutations.%s.%s' % (family, validator or 'none'),
                 targets=['spyne.server.wsgi:WsgiApplication.__call__'],
-                bounded="31 structure-aware mutations of a valid 12-argument request",
+                bounded="38 structure-aware mutations of a valid 12-argument request",
                 desc="XML families: leaf corruption, deletion, duplication, unknown members, wrong nesting end in a normal "
                      "response or a Client fault; no exception escapes; no user code on fault")
     def ob(c):
